@@ -127,3 +127,10 @@ def replay(ctx, path):
         print("VIOLATION property=C20 replay=%s" % path)
         return 1
     return 0
+
+
+def pregen(ctx):
+    hb = C.build_harness("deeplinks")
+    cases = ctx.work + "/pregen.txt"
+    C.sh([hb, "hosts", cases])
+    write_hosts(C.read_tsv(cases)[0][1:])
